@@ -32,11 +32,8 @@ class ExprMixin:
         not None here (None keys are outside the dict model).'''
         if isinstance(v.t, TOpt) and not isinstance(kt, TOpt):
             if not self.spec_mode:
-                r, _ = self._check(v.t.is_none(v.z), timeout=self.branch_timeout_ms)
-                if r != z3.unsat:
-                    rl = self._check_light(v.t.is_none(v.z))
-                    if rl != z3.unsat:
-                        raise Unsupported('possibly None used as dict key')
+                if not self.entails(z3.Not(v.t.is_none(v.z))):
+                    raise Unsupported('possibly None used as key / element of a typed container')
             v = V(v.t.inner, v.t.val(v.z))
         return coerce(v, kt)
 
@@ -428,8 +425,7 @@ class ExprMixin:
     def nonneg_or_unsupported(self, z, what):
         if self.spec_mode:
             return
-        r, _ = self._check(z < 0, timeout=self.branch_timeout_ms)
-        if r != z3.unsat:
+        if not self.entails(z >= 0):
             raise Unsupported('possibly negative %s' % what)
 
     def do_slice(self, base, sl):
